@@ -175,3 +175,36 @@ def header_roundtrips(ctx):
     if bad:
         md, ad, what = bad[0]
         vf.violation(ctx, f'encrypted header with metadata {opt(md)[:20]} / authentication data {opt(ad)}: {what}', {'metadata': opt(md), 'ad': opt(ad), 'what': what, 'violations_total': len(bad)})
+
+
+MX_KEYS = ["D::a", "D::b", "D::c && S::h", "D::d", "S::l", "*"]
+MX_POLS = ["D::a", "D::a || D::c", "D::b || D::d", "D::b || D::a", "D::d && S::l", "S::h && D::b || D::c"]
+
+
+def matrix(ctx, reps=None):
+    """PKE and header layers over single / multi-target / hybridized / MIXED policies and six keys, several times each (the
+    internal shuffle of decapsulation is random): who decrypts is what the name-level reference semantics says."""
+    import spec, hist
+    x = hist.x
+    scr = ['SETUP', f'AA {x("D")}'] + [f"AT {x('D')} {x(n)} {h} -" for n, h in (('a', 0), ('b', 1), ('c', 0), ('d', 1))]
+    scr += [f'AH {x("S")}', f"AT {x('S')} {x('l')} 0 -", f"AT {x('S')} {x('h')} 1 {x('l')}", 'UPD']
+    scr += [f'KG {x(k)}' for k in MX_KEYS] + [f'EN 1 {x(p)}' for p in MX_POLS]
+    n0 = len(scr)
+    scr += [f'DE {k} {e}' for k in range(len(MX_KEYS)) for e in range(len(MX_POLS))]
+    pred = spec.predict(scr)
+    exp = {(k, e): pred[n0 + k * len(MX_POLS) + e] == 'SOME' for k in range(len(MX_KEYS)) for e in range(len(MX_POLS))}
+    reps = reps or (8 if ctx.quick() else 60)
+    d = Demd(); out = d.ask(f'MATRIX {reps}'); d.close()
+    bad = []; n = 0
+    for it in out.split(';'):
+        f = it.split(' ')
+        if len(f) != 6: continue
+        k, e = int(f[1]), int(f[2]); n += 2
+        for layer, got in (('PKE', f[4]), ('header', f[5])):
+            want = 'OK' if exp[(k, e)] else 'NONE'
+            if got != want: bad.append((layer, MX_KEYS[k], MX_POLS[e], int(f[3]), got, want))
+    ctx.evaluations += n
+    ctx.ob('correspondence', f'PKE / header matrix: 6 keys x 6 policies (single, classic multi-target, hybridized multi-target, mixed, conjunctions) x {reps} trials x 2 layers = {n} decryptions: authorized keys get exactly the plaintext / metadata / secret, the others "not authorized"', not bad and n > 0, str(bad[:3]))
+    if bad or n == 0:
+        layer, k, e, rep, got, want = bad[0] if bad else ('-', '-', '-', 0, out[:80], 'a matrix')
+        vf.violation(ctx, f'{layer} layer: key "{k}" on a ciphertext for "{e}" (trial {rep}): {got}, expected {want}', {'matrix': True, 'key_policy': k, 'encryption_policy': e, 'layer': layer, 'got': got, 'expected': want, 'violations_total': len(bad)})
